@@ -37,16 +37,25 @@ def main():
     out = []
     try:
         mods = [cfgbuild.load_library(lib, root) for lib in data["libs"]]
+        flagged = set()
         for case in data["cases"]:
             mod = mods[case["lib"]]
-            rec = {"lines": [], "impl": [], "error": None}
+            lib = data["libs"][case["lib"]]
+            rec = {"lines": [], "impl": [], "error": None, "argsrc": {}}
+            if case["lib"] not in flagged:
+                # once per library: the flags the model derives from every declaration against the real `Argument` objects
+                flagged.add(case["lib"])
+                try:
+                    rec["declflags"] = cfgbuild.library_flags(mod, lib)
+                except Exception as e:
+                    rec["declflags"] = {"error": f"{type(e).__name__}: {e}"}
             env = {}
             try:
                 for st in case["steps"]:
                     if st["do"] == "build":
                         env[st["as"]] = cfgbuild.build_graph(mod, st["graph"])
                     elif st["do"] == "graph":
-                        rec["lines"].append({"op": "graph", "nodes": cfgbuild.model_graph(env[st["of"]])})
+                        rec["lines"].append({"op": "graph", "nodes": cfgbuild.model_graph(env[st["of"]], lib=lib, stats=rec["argsrc"])})
                         rec["impl"].append({"ok": True})
                     elif st["do"] == "op":
                         objs = env[st["on"]]
